@@ -10,6 +10,7 @@ scalar field, number of children).
 from vf import oalmodel as om
 from vf import oalsyn
 
+SUPPORTS_REPLAY = True
 SHARDS = {'quick': 16, 'thorough': 64}
 TIMEOUT = {'quick': 1500, 'thorough': 7200}
 MUST_HIT = ['StrictAst.exhaustive-expression', 'StrictAst.random-expression', 'StrictAst.statement',
